@@ -658,9 +658,11 @@ def run_cookie_flood():
     """More cookies than the jar keeps per domain (50), set from several directories and
     with hostile attributes: header data, however plentiful, must not end the crawl."""
     from vt.appharn import AppRun
-    pages = {'/': {'links': ['/p%d' % i for i in range(7)] + ['/dir/q', '/dir2/sub/r', '/last']}}
+    # (the pages that come after the flood hang one level deeper: link order within a page
+    # is at the mercy of set iteration inside wpull's scraper)
+    pages = {'/': {'links': ['/p%d' % i for i in range(7)]}}
     for i in range(7):
-        pages['/p%d' % i] = {'links': [], 'headers': [
+        pages['/p%d' % i] = {'links': ['/dir/q', '/dir2/sub/r', '/last'], 'headers': [
             ['Set-Cookie', 'c%d_%d=v%d' % (i, k, k)] for k in range(10)]}
     pages['/dir/q'] = {'links': [], 'headers': [['Set-Cookie', 'deep=1'],
                                                  ['Set-Cookie', 'deep2=2; Path=/other/place']]}
